@@ -15,6 +15,9 @@ func ValidateGenesis(gs GenesisState) error {
 	}
 	// validate each claim
 	for _, claim := range gs.Claims {
+		// a genesis claim is a stored claim: it carries the expiration height the chain assigned when the claim was
+		// accepted (ExportGenesis writes it). Only a claim MESSAGE must leave that field unset.
+		claim.ExpirationHeight = 0
 		if err := claim.ValidateBasic(); err != nil {
 			return err
 		}
